@@ -222,8 +222,8 @@ theorem mix_update_normalised (s : MixSt ℝ) (hlen : s.subs.length = s.probas.l
 
 /-! ## user-specified distribution -/
 
-theorem findFree_spec (prec lo hi v : ℝ) (m : TMap ℝ) (fuel : Nat) (j : Int) (c : ℝ)
-    (h : SimpleSt.findFree prec lo hi v m fuel j = some c) : TMap.find? prec c m = none := by
+theorem findFree_spec (prec step lo hi v : ℝ) (m : TMap ℝ) (fuel : Nat) (j : Int) (c : ℝ)
+    (h : SimpleSt.findFree prec step lo hi v m fuel j = some c) : TMap.find? prec c m = none := by
   induction fuel generalizing j with
   | zero => simp [SimpleSt.findFree] at h
   | succ n ih =>
@@ -265,7 +265,7 @@ theorem rebuild_go (s : SimpleSt ℝ) (l : List (ℝ × ℝ)) (m m' : TMap ℝ) 
     split at h
     · split at h
       · rename_i v2 hf
-        have hnf := findFree_spec _ _ _ _ _ _ _ _ hf
+        have hnf := findFree_spec _ _ _ _ _ _ _ _ _ hf
         obtain ⟨a1, a2⟩ := vals_assign_not_found s.dd.prec v2 p m hnf
         obtain ⟨b1, b2⟩ := ih _ h (fun e he => hl e (by simp [he])) (a2 hm hp)
         exact ⟨b1, by rw [b2, a1]; simp; ring⟩
